@@ -137,6 +137,28 @@ theorem rhoInner_inv (what v : Nat) (fuel j lim : Nat) (flag : Bool) (x y g : Na
       · right; exact h
     · left; rfl
 
+/-- The fuel of the inner loop never cuts the Go loop short: once `lim ≤ j + fuel`, more fuel changes
+nothing (the loop stops by its own condition `j < lim && flag`; `j` grows by one per iteration). -/
+theorem rhoInner_fuel (what v : Nat) (fuel k j lim : Nat) (flag : Bool) (x y g : Nat) (h : lim ≤ j + fuel) :
+    rhoInner what v (fuel + k) j lim flag x y g = rhoInner what v fuel j lim flag x y g := by
+  induction fuel generalizing j flag x y g with
+  | zero =>
+    have hc : Facts.C13.pqInnerContT j lim flag = false := by
+      rw [pqInnerContT_spec]
+      have : ¬ j < lim := by omega
+      simp [this]
+    cases k with
+    | zero => rfl
+    | succ k => simp [rhoInner, hc]
+  | succ n ih =>
+    rw [show n + 1 + k = (n + k) + 1 by omega, rhoInner, rhoInner]
+    split
+    · dsimp only
+      rw [pqInnerTailT_spec]
+      dsimp only
+      exact ih _ _ _ _ _ (by omega)
+    · rfl
+
 theorem pqFinish_sound (what g : Nat) (h1 : 1 < g) (h2 : g < what) (hd : g ∣ what) :
     (pqFinish what g).1 * (pqFinish what g).2 = what ∧ 1 < (pqFinish what g).1 ∧
       (pqFinish what g).1 ≤ (pqFinish what g).2 := by
